@@ -1964,6 +1964,35 @@ def _pure_expr(e: ast.AST) -> bool:
   return True
 
 
+_fl_counter = [0]
+
+
+def _suppress_to_try(tree: ast.Module) -> int:
+  """`with contextlib.suppress(E1, E2): BODY` is `try: BODY except (E1, E2): pass`: written out so that the control-flow
+  graph has the edge from a failing statement of BODY to the statement after the block."""
+  n = 0
+
+  class T(ast.NodeTransformer):
+    def visit_With(self, w: ast.With):
+      nonlocal n
+      self.generic_visit(w)
+      if len(w.items) == 1 and w.items[0].optional_vars is None and isinstance(w.items[0].context_expr, ast.Call) \
+          and _chain(w.items[0].context_expr.func) in ('contextlib.suppress', 'suppress') and w.items[0].context_expr.args \
+          and not w.items[0].context_expr.keywords:
+        args = w.items[0].context_expr.args
+        typ = args[0] if len(args) == 1 else ast.Tuple(elts=list(args), ctx=ast.Load())
+        h = ast.ExceptHandler(type=typ, name=None, body=[ast.Pass()])
+        t = ast.Try(body=w.body, handlers=[h], orelse=[], finalbody=[])
+        for x in (h, t, h.body[0]):
+          ast.copy_location(x, w)
+        ast.fix_missing_locations(t)
+        n += 1
+        return t
+      return w
+  T().visit(tree)
+  return n
+
+
 def _filter_loops_to_comprehensions(fn: ast.FunctionDef) -> int:
   """`A = []; B = []; for t in SRC: if c1: A.append(e1) elif c2: B.append(e2)` (pure conditions and elements, each
   list appended in one arm only and mentioned nowhere else in the loop) is the pair of comprehensions
@@ -2009,17 +2038,25 @@ def _filter_loops_to_comprehensions(fn: ast.FunctionDef) -> int:
       if isinstance(st, ast.Try):
         for h in st.handlers:
           do_block(h.body)
-      if not (isinstance(st, ast.For) and not st.orelse and isinstance(st.iter, ast.Name)
+      if not (isinstance(st, ast.For) and not st.orelse
               and all(isinstance(x, ast.Name) for x in ([st.target] if isinstance(st.target, ast.Name) else getattr(st.target, 'elts', [None])))):
         i += 1
         continue
+      hoisted_iter = None
+      if not isinstance(st.iter, ast.Name):
+        # the iterable is evaluated once, before the first element is looked at: bind it to a local first
+        if any(isinstance(x, (ast.Yield, ast.YieldFrom, ast.Await, ast.NamedExpr)) for x in ast.walk(st.iter)):
+          i += 1
+          continue
+        hoisted_iter = st.iter
       arms = arms_of(st.body, [])
       if not arms:
         i += 1
         continue
       lists = [a[1] for a in arms]
       tnames = {x.id for x in ast.walk(st.target) if isinstance(x, ast.Name)}
-      if len(set(lists)) != len(lists) or st.iter.id in lists or (set(lists) & tnames):
+      iter_names = {x.id for x in ast.walk(st.iter) if isinstance(x, ast.Name)}
+      if len(set(lists)) != len(lists) or (iter_names & set(lists)) or (set(lists) & tnames):
         i += 1
         continue
       # each list: `L = []` earlier in this block, not mentioned between there and the loop, nor elsewhere in the loop
@@ -2050,6 +2087,15 @@ def _filter_loops_to_comprehensions(fn: ast.FunctionDef) -> int:
         i += 1
         continue
       new = []
+      iter_expr = st.iter
+      if hoisted_iter is not None:
+        _fl_counter[0] += 1
+        nm = f'iterated__fl{_fl_counter[0]}'
+        pre_ = ast.Assign(targets=[ast.Name(id=nm, ctx=ast.Store())], value=hoisted_iter, lineno=st.lineno)
+        ast.copy_location(pre_, st)
+        ast.fix_missing_locations(pre_)
+        new.append(pre_)
+        iter_expr = ast.copy_location(ast.Name(id=nm, ctx=ast.Load()), st)
       for conds, L, elt in arms:
         ifs = []
         if conds:
@@ -2059,7 +2105,7 @@ def _filter_loops_to_comprehensions(fn: ast.FunctionDef) -> int:
           test = flat[0] if len(flat) == 1 else ast.BoolOp(op=ast.And(), values=[copy.deepcopy(c) for c in flat])
           ifs = [copy.deepcopy(test)]
         comp = ast.ListComp(elt=copy.deepcopy(elt), generators=[ast.comprehension(
-            target=copy.deepcopy(st.target), iter=copy.deepcopy(st.iter), ifs=ifs, is_async=0)])
+            target=copy.deepcopy(st.target), iter=copy.deepcopy(iter_expr), ifs=ifs, is_async=0)])
         a = ast.Assign(targets=[ast.Name(id=L, ctx=ast.Store())], value=comp, lineno=st.lineno)
         ast.copy_location(a, st)
         ast.copy_location(comp, st)
@@ -2130,7 +2176,7 @@ def _propagate_param_aliases(fn: ast.FunctionDef) -> int:
 def normalise(tree: ast.Module, exclude: Optional[Set[str]] = None) -> int:
   """Inlines suitable private helpers in place; returns the number of inlined call sites."""
   ex = anchors() if exclude is None else exclude
-  n_disp = _expand_dispatch_tables(tree)
+  n_disp = _suppress_to_try(tree) + _expand_dispatch_tables(tree)
   inl = _Inliner(tree, ex)
   n = inl.run() + n_disp
   n += _unroll_literal_loops(tree)
